@@ -217,6 +217,12 @@ class GeoInterp:
         if em:
             return ('E', em[0], em[1])
         if isinstance(e, ast.Dict):
+            if env and not any(k is None for k in e.keys):
+                # inside a function: the entries name its parameters / locals, so the display
+                # is evaluated here, not later in the module's own scope
+                return ('DV', tuple((self.eval(k, env, module, depth),
+                                     self.eval(v, env, module, depth))
+                                    for k, v in zip(e.keys, e.values)))
             return ('D', e, module)      # a dict display used as a value (a nested table)
         if isinstance(e, ast.Lambda):
             return ('LAM', e, module)    # applied where it is called (tables of small lambdas)
@@ -845,8 +851,18 @@ class GeoInterp:
                                                      else ''))
                         if e.value is None:
                             return NONE
-                        return self.eval(self._expand_here(w, e.value, bound, fn.module, depth),
-                                         bound, fn.module, depth)
+                        try:
+                            return self.eval(
+                                self._expand_here(w, e.value, bound, fn.module, depth),
+                                bound, fn.module, depth)
+                        except GeoKeyError as ex_:
+                            # `try: return T[k] except KeyError: return D`: the lookup fails
+                            # inside the try, so the handler's return decides
+                            kind_ = 'IndexError' if isinstance(ex_, GeoIndexError) else 'KeyError'
+                            if any(kind_ in t_ or 'LookupError' in t_ or t_ in (
+                                    'Exception', 'BaseException') for t_ in e.in_try):
+                                continue
+                            raise
             return NONE
         finally:
             self._frames.pop()
